@@ -200,6 +200,9 @@ Definition out (A : Type) := (list effect * list (list effect) * A * world)%type
 Definition is_empty_names (c : cert) : bool := match c_names c with [] => true | _ => false end.
 Definition with_ari (d : bool) (x : cert) : cert :=
   Cert (c_id x) (c_names x) (c_managed x) (c_due x || d) (c_expired x) (c_revoked x) (c_keycomp x) None.
+(** (a cached certificate with the hash of c is c: same subjects) *)
+Definition set_names (ns : list name) (x : cert) : cert :=
+  Cert (c_id x) ns (c_managed x) (c_due x) (c_expired x) (c_revoked x) (c_keycomp x) (c_ari x).
 Definition fresh_cert (w : world) (n : name) : cert :=
   Cert (w_fresh w) [n] true false false false false None.
 
@@ -265,8 +268,12 @@ Section WithSpace.
     else (e1 ++ [EEvict (c_id c)], MCertErr c, cache_remove (c_id c) w1).
 
   (** renewAndReload, the worker part of renewDynamicCertificate *)
+  (** the name the policy is asked about: the handshake's name, but for a revoked certificate the
+      subject forceRenew is going to renew, Names[0] [fix 7a4c3bf] *)
+  Definition renew_gate_name (n : name) (c : cert) : name := if c_revoked c then name0 c else n.
+
   Definition renew_and_reload (w : world) (n : name) (c : cert) (ok : bool) : list effect * mres * world :=
-    let '(ge, allowed, w1) := gate w n true in
+    let '(ge, allowed, w1) := gate w (renew_gate_name n c) true in
     if negb allowed then (ge ++ [EEvict (c_id c)], MErr, cache_remove (c_id c) w1)
     else if c_revoked c then
       let '(e, r, w2) := force_renew w1 c ok in (ge ++ e, r, w2)
@@ -344,7 +351,7 @@ Section WithSpace.
               let newer := match store_find (name0 c) w with Some s => c_ari s | None => None end in
               let cached := cache_find (c_id c) w in
               let c' := match newer with
-                        | Some d => with_ari d (match cached with Some x => x | None => c end)
+                        | Some d => set_names (c_names c) (with_ari d (match cached with Some x => x | None => c end))
                         | None => c
                         end in
               let w1 := match newer, cached with Some _, Some _ => cache_update c' w | _, _ => w end in
@@ -488,56 +495,87 @@ Section WithSpace.
 
   (** ** The property, as a boolean on one handshake's effects (the runtime monitor) *)
 
-  (** is [e] a policy evaluation for [n], and with what answer *)
-  Definition permit_of (n : name) (e : effect) : option bool :=
-    match e with
-    | EDecision m r => if str_eqb m n then Some r else None
-    | EAllow m r => if str_eqb m n then Some r else None
-    | _ => None
-    end.
+  (** a policy evaluation: the name asked about and the answer *)
+  Definition eval_of (e : effect) : option (name * bool) :=
+    match e with EDecision m r | EAllow m r => Some (m, r) | _ => None end.
   Definition is_eval (e : effect) : bool :=
     match e with EDecision _ _ | EAllow _ _ => true | _ => false end.
   Definition needs_gate (e : effect) : bool :=
     match e with EIssue _ | ELoad _ => true | _ => false end.
   Definition is_issue (e : effect) : bool := match e with EIssue _ => true | _ => false end.
 
-  (** scan one goroutine's effects in order; the state is the answer of its most recent policy
-      evaluation (None: none yet, or the most recent one was about another name).  None as a
-      result: an Issue / Load that is not covered by a yes. *)
-  Fixpoint scan (n : name) (st : option bool) (l : list effect) : option (option bool) :=
+  (** the bundle keys a handshake may read once the policy has said yes for x: x itself, its
+      wildcard variant (loadCertFromStorage's fallback), and the bundle of the certificate that
+      matched the handshake in the cache ([hk] = its first subject: reloadManagedCertificate) *)
+  Definition load_ok (hk : option name) (x m : name) : bool :=
+    str_eqb m x || str_eqb m (wild x) || match hk with Some k => str_eqb m k | None => false end.
+  (** the names the policy may be asked about: the handshake's name (its wildcard variant only for a
+      wildcard bundle loaded for it) and the first subject of the matched certificate *)
+  Definition cands (n : name) (hk : option name) : list name :=
+    n :: wild n :: match hk with Some k => [k] | None => [] end.
+  (** what a yes for x covers: an Issue for exactly x; a Load of one of x's bundle keys *)
+  Definition fit1 (hk : option name) (x : name) (e : effect) : bool :=
+    match e with EIssue m => str_eqb x m | ELoad m => load_ok hk x m | _ => true end.
+
+  (** scan one goroutine's effects in order; the state is its most recent policy evaluation (name
+      and answer).  None as a result: an evaluation about a foreign name, or an Issue / Load that is
+      not covered by a most recent yes for that very subject / one of its bundle keys, or whose
+      subject does not qualify. *)
+  Fixpoint scan (n : name) (hk : option name) (st : option (name * bool)) (l : list effect)
+    : option (option (name * bool)) :=
     match l with
     | [] => Some st
     | e :: r =>
-        if is_eval e then scan n (permit_of n e) r
-        else if needs_gate e then
-          match st with Some true => scan n st r | _ => None end
-        else scan n st r
+        match eval_of e with
+        | Some (x, a) => if existsb (str_eqb x) (cands n hk) then scan n hk (Some (x, a)) r else None
+        | None =>
+            if needs_gate e then
+              match st with
+              | Some (x, true) => if fit1 hk x e && qualifies is_space x then scan n hk st r else None
+              | _ => None
+              end
+            else scan n hk st r
+        end
     end.
-  Definition scan_ok (n : name) (l : list effect) : bool :=
-    match scan n None l with Some _ => true | None => false end.
+  Definition scan_ok (n : name) (hk : option name) (l : list effect) : bool :=
+    match scan n hk None l with Some _ => true | None => false end.
 
-  (** on-demand enabled: every Issue/Load of every goroutine follows a yes-answer for the
-      handshake's own name that is that goroutine's most recent policy evaluation, and the name
-      qualifies; no name: no Issue/Load; on-demand disabled: no Issue at all. *)
-  Definition gated_ok (od : bool) (hn : option name) (gs : list (list effect)) : bool :=
+  (** on-demand enabled: every goroutine's list passes the scan; no name: no Issue/Load;
+      on-demand disabled: no Issue at all. *)
+  Definition gated_ok (od : bool) (hn : option name) (hk : option name) (gs : list (list effect)) : bool :=
     if od then
       match hn with
-      | Some n => forallb (scan_ok n) gs &&
-                  (negb (existsb (existsb needs_gate) gs) || qualifies is_space n)
+      | Some n => forallb (scan_ok n hk) gs
       | None => negb (existsb (existsb needs_gate) gs)
       end
     else negb (existsb (existsb is_issue) gs).
 
   (** ** the specification on the implementation's observation (DecisionFunc calls are visible,
-      allowlist look-ups are not: for the allowlist the policy itself is evaluated) *)
-  Definition spec_hs (pol : option policy) (hn : option name) (gs : list (list effect)) : bool :=
+      allowlist look-ups are not: for the allowlist the policy itself is evaluated: an Issue for m
+      needs m on the list, a Load of m a listed, qualifying candidate name one of whose keys m is) *)
+  Definition allow_covers (l : list name) (n : name) (hk : option name) (e : effect) : bool :=
+    match e with
+    | EIssue m => allow_ok l m && qualifies is_space m
+    | ELoad m => existsb (fun x => allow_ok l x && qualifies is_space x && load_ok hk x m) (cands n hk)
+    | _ => true
+    end.
+  Definition spec_hs (pol : option policy) (hn : option name) (hk : option name) (gs : list (list effect)) : bool :=
     match pol with
     | Some (PAllow l) =>
-        negb (existsb (existsb needs_gate) gs) ||
-        match hn with Some n => allow_ok l n && qualifies is_space n | None => false end
-    | Some (PDecision _) => gated_ok true hn gs
-    | None => gated_ok false hn gs
+        match hn with
+        | Some n => forallb (forallb (allow_covers l n hk)) gs
+        | None => negb (existsb (existsb needs_gate) gs)
+        end
+    | Some (PDecision _) => gated_ok true hn hk gs
+    | None => gated_ok false hn hk gs
     end.
 
+  (** first subject of the certificate the cache lookup matched *)
+  Definition hit_key (w : world) (h : hello) : option name :=
+    match h_hit h with Some id => option_map name0 (cache_find id w) | None => None end.
+
+  (** bundles are stored under the first subject of their certificate *)
+  Definition store_wf (w : world) : Prop :=
+    forall k c, store_find k w = Some c -> name0 c = k.
 
 End WithSpace.
